@@ -26,7 +26,7 @@ def run(ctx, chk):
     c05.run(ctx, chk)
     c15.run(ctx, chk)
 
-    R3 = chk.rule("S3-APPEND-ONLY", "inside dr::loader every call that mutates a Vec of the module under construction is Vec::push "
+    R3 = chk.rule("S3-APPEND-ONLY", "inside dr::loader every call that mutates a Vec of the module under construction appends (Vec::push / extend / extend_from_slice) "
                   "(no insert/remove/swap/sort/clear/truncate/pop): order inside a section, function and block is input order")
     n = 0
     for p, fn in mir.fns.items():
@@ -39,7 +39,7 @@ def run(ctx, chk):
                 if nm in ("new", "len", "is_empty", "iter", "as_slice", "deref", "index", "last", "first", "clone", "fmt", "with_capacity", "default"):
                     continue
                 n += 1
-                chk.check(R3, nm == "push", "%s:Vec::%s" % (mir_name(p).split("::")[-1], nm), "loader calls Vec::%s" % nm, where(t["span"]),
+                chk.check(R3, nm in ("push", "extend", "extend_from_slice"), "%s:Vec::%s" % (mir_name(p).split("::")[-1], nm), "loader calls Vec::%s" % nm, where(t["span"]),
                           key="C01:vec:%s:%s" % (mir_name(p).split("::")[-1], nm))
     chk.floor(R3, "Vec mutations in the loader", n, 10)
 
